@@ -58,6 +58,17 @@ func (o OracleC17) AfterHalt(x *Exec, op *Op, res *Res) {
 			}
 		}
 	}
+	// Listed finding F-C04a (consequence): after an asset went through the ownerless-value state
+	// a position can be over-reported and over-withdrawn; the matured unbonding then exceeds
+	// custody and CompleteUnbondings fails with the bank's insufficient-funds error.
+	if strings.Contains(msg, "failed to complete undelegations") && (strings.Contains(msg, "insufficient funds") || strings.Contains(msg, "is smaller than")) {
+		for _, dn := range AssetDenoms {
+			if strings.Contains(msg, dn) && x.PrecisionCollapsed(dn) {
+				x.KnownFinding("F-C04a")
+				return
+			}
+		}
+	}
 	x.Fail("C17", "endblock", "end-of-block processing failed at %s: %s", pre.Time.UTC().Format("2006-01-02T15:04:05.000000000"), msg)
 }
 
